@@ -135,10 +135,10 @@ def hash_vec(text: str, dim: int = 32):
 
 def mk_episode(eid: str, owner: str, text: str, ts: str = "2025-08-25T00:00:00Z", importance: float = 0.5,
                cluster: Optional[str] = None, vec=None, dim: int = 32) -> dict:
-    ep = {"id": eid, "owner": owner, "text": text, "ts": ts, "importance": importance,
+    ep = {"id": eid, "owner": owner, "text": text, "ts": ts, "aux": {"importance": importance},
           "vec_full": (vec if vec is not None else hash_vec(text, dim)), "tags": []}
     if cluster is not None:
-        ep["aux"] = {"cluster_id": cluster}
+        ep["aux"]["cluster_id"] = cluster
     return ep
 
 
